@@ -69,8 +69,16 @@ THEOREMS = [
     "XalanModel.Props.C19.arena_uncommitted_slot_counterexample",
     "XalanModel.Props.C19.deque_null_block_counterexample",
     "XalanModel.Props.C19.arena_destroyObject_makes_no_request",
+    "XalanModel.Props.C19.arena_free_list_not_exhausted",
+    "XalanModel.Props.C19.arena_blocklist_balanced_and_failure_contained",
     "XalanModel.Props.C19.arena_push_then_erase_allocates_counterexample",
     "XalanModel.Props.C19.autoptr_balanced_and_failure_contained",
+    "XalanModel.Props.C19.map_balanced_and_failure_contained",
+    "XalanModel.Props.C19.map_insert_contained",
+    "XalanModel.Props.C19.map_stale_bucket_counterexample",
+    "XalanModel.Props.C19.deque_balanced_and_failure_contained",
+    "XalanModel.Props.C19.deque_repaired_steps_defined",
+    "XalanModel.Props.C19.deque_empty_trailing_block_counterexample",
     "XalanModel.Props.C19.all_construct_overloads_guarded",
     "XalanModel.Props.C19.all_placement_sites_owned",
     "XalanModel.Props.C19.ostream_transcoder_no_double_destroy",
@@ -97,7 +105,10 @@ BAD_FAMILY = ["b%02d" % i for i in range(1, 28) if i != 17]
 # application-owned XalanStdOutputStream + XalanOutputStreamPrintWriter reused for several results with different encodings
 WRITER_SCENARIOS = [("w2", "writer"), ("w1", "writer")]     # w2: ISO-8859-1, US-ASCII;  w1: nine results incl. UTF-16/UTF-8/unsupported
 # quick tier: phases swept per scenario (default: all); the rest of a large scenario is swept in the thorough tier
-QUICK_PHASES = {"s11": ("ctor", "parse", "transform", "destroy"), "w1": ()}
+QUICK_PHASES = {"s11": ("ctor", "parse", "transform", "destroy"), "w1": (),
+                # the two largest compile phases are swept in the thorough tier only (their counting runs, i.e. balance with and
+                # without the compiled stylesheet alone, stay in quick)
+                "s9": ("ctor", "parse", "transform", "destroy"), "s10": ("ctor", "parse", "transform", "destroy")}
 
 
 def fields(line):
@@ -271,6 +282,46 @@ def gen_ap_ops(r, n):
     return ops
 
 
+def gen_map_ops(r, n):
+    """XalanMap<int,long> with a small bucket count, so that rehash, bucket growth and entry recycling all happen"""
+    ops = ["m new %d" % r.choice([1, 2, 3, 5])]
+    for _ in range(2 * n + 3):
+        k = r.weighted([("ins", 12), ("erase", 5), ("clear", 1), ("find", 2)])
+        if k == "ins":
+            ops.append("m ins %d %d" % (r.range(0, 14), r.range(0, 99)))
+        elif k == "erase":
+            ops.append("m erase %d" % r.range(0, 14))
+        elif k == "find":
+            ops.append("m find %d" % r.range(0, 14))
+        else:
+            ops.append("m clear")
+    ops.append("m destroy")
+    return ops
+
+
+def gen_dq_ops(r, n):
+    """XalanDeque<long> / XalanDeque<Boxed>: push_back, pop_back, clear over small blocks (blocks are recycled)"""
+    pre = r.choice(["dql", "dqb"])
+    ops, cnt = ["%s new %d" % (pre, r.range(1, 3))], 0
+    for _ in range(2 * n + 2):
+        k = r.weighted([("push", 7), ("pop", 4), ("clear", 1)])
+        if k == "push":
+            ops.append("%s push %d" % (pre, r.range(0, 60))); cnt += 1
+        elif k == "pop":
+            if cnt == 0:
+                continue
+            ops.append(pre + " pop"); cnt -= 1
+        else:
+            ops.append(pre + " clear"); cnt = 0
+    ops.append(pre + " destroy")
+    return ops
+
+
+def gen_bmap_ops(r, n):
+    """XalanMap<int, Boxed>: the value copy is one more refusable request inside doCreateEntry"""
+    return [o.replace("m ", "mb ", 1) for o in gen_map_ops(r, n)]
+
+
 def gen_deque_ops(r, n):
     ops = ["d new %d" % r.range(1, 3)]
     for _ in range(n):
@@ -281,6 +332,19 @@ def gen_deque_ops(r, n):
 
 
 CONTAINER_CORPUS = [
+    # XalanMap<int, Boxed>: value copy of `ins 2` refused (request 13); the free entry already says erased = false and key 2, and the
+    # single bucket still holds the stale iterator of the erased key 1 -> erase(2) finds the free entry
+    (13, ["mb new 1", "mb ins 3 30", "mb ins 1 10", "mb erase 1", "mb ins 2 20", "mb erase 2", "mb destroy"]),
+    # XalanDeque<Boxed>: element copy refused right after a new block was appended (request 4 = the element) -> empty trailing block
+    (4, ["dqb new 1", "dqb push 1", "dqb destroy"]),
+    (7, ["dqb new 1", "dqb push 1", "dqb push 2", "dqb pop", "dqb destroy"]),
+    (0, ["dql new 2", "dql push 1", "dql push 2", "dql push 3", "dql pop", "dql pop", "dql push 4", "dql clear", "dql push 5", "dql destroy"]),
+    # XalanMap<int, Boxed>: value copy refused inside doCreateEntry, splice refused after the value was constructed
+    (6, ["mb new 1", "mb ins 1 10", "mb ins 2 20", "mb destroy"]),
+    (7, ["mb new 1", "mb ins 1 10", "mb erase 1", "mb ins 2 20", "mb destroy"]),
+    # XalanMap: rehash (third/fourth insert with 1-2 buckets), recycled entries, clear, and the refusals inside doCreateEntry
+    (0, ["m new 2", "m ins 1 10", "m ins 2 20", "m ins 3 30", "m ins 4 40", "m ins 5 50", "m erase 2", "m ins 9 90", "m clear", "m ins 1 11", "m destroy"]),
+    (7, ["m new 1", "m ins 1 10", "m ins 2 20", "m ins 3 30", "m destroy"]),
     # destroyObject of an object whose block is not at the head: the move to the front must not allocate (seeded break:
     # push_front before erase); refusal index 16 is the first request after the five creations
     (16, ["ra new 2", "ra create 1", "ra create 2", "ra create 3", "ra create 4", "ra create 5", "ra destroy 0", "ra destroy 2", "ra free"]),
@@ -317,28 +381,34 @@ def container_part(ctx, r, model):
     # probe: which XalanList behaviour does the working tree have?
     probe = os.path.join(work, "probe.req")
     with open(probe, "w") as f:
-        f.write("new 0\nl clear\nnew 3\nl pushb 1\nl destroy\nnew 3\na new 2\na create 1\na free\nnew 2\nd new 2\nd push 1\nd size\n")
+        f.write("new 0\nl clear\nnew 3\nl pushb 1\nl destroy\nnew 3\na new 2\na create 1\na free\nnew 2\nd new 2\nd push 1\nd size\nnew 4\ndqb new 1\ndqb push 1\nnew 13\nmb new 1\nmb ins 3 30\nmb ins 1 10\nmb erase 1\nmb ins 2 20\nmb erase 2\n")
     rc, out = common.sh("%s < %s" % (harness, probe), env=env)
     pl = [l for l in out.split("\n") if l.strip()]
     clear_guard = 1 if len(pl) > 1 and "reqs=0" in pl[1] else 0
     next_init = 0 if len(pl) > 4 and pl[4].startswith("ub") else 1
     skip_pending = 0 if len(pl) > 8 and pl[8].startswith("ub") else 1
     pop_null = 0 if len(pl) > 12 and pl[12].startswith("ub") else 1
+    drop_empty = 0 if len(pl) > 15 and " idx=1 " in pl[15] else 1
+    late_unerase = 0 if len(pl) > 22 and pl[22].startswith("ub") else 1
     ctx.extra["list_variant"] = {"clearGuard": clear_guard, "nextInit": next_init, "arenaSkipPending": skip_pending,
-                                 "dequePopNull": pop_null}
+                                 "dequePopNull": pop_null, "dequeDropEmptyBlock": drop_empty, "mapLateUnerase": late_unerase}
     ctx.hist["variant:clearGuard=%d,nextInit=%d,arenaSkipPending=%d,dequePopNull=%d" % (clear_guard, next_init, skip_pending, pop_null)] = 1
 
     nseq, maxops = (60, 10) if not ctx.thorough else (400, 16)
     seqs = [(k, ops) for k, ops in CONTAINER_CORPUS]
     base = []
     for i in range(nseq):
-        ops = (gen_list_ops, gen_vec_ops, gen_arena_ops, gen_deque_ops, gen_bvec_ops, gen_ra_ops, gen_ap_ops)[i % 7](r, r.range(1, maxops))
+        ops = (gen_list_ops, gen_vec_ops, gen_arena_ops, gen_deque_ops, gen_bvec_ops, gen_ra_ops, gen_ap_ops, gen_map_ops, gen_bmap_ops, gen_dq_ops)[i % 10](r, r.range(1, maxops))
         base.append(ops)
     for ops in base:
         # every refusal index: an op makes at most 3 requests (+1 sentinel)
         top = 3 * len(ops) + 3
         if ops[0].startswith("ra"):
             top = min(5 * len(ops) + 6, 120)
+        if ops[0].startswith(("m ", "mb ")):
+            top = min(4 * len(ops) + 8, 90)
+        if ops[0].startswith("dq"):
+            top = min(4 * len(ops) + 6, 90)
         if ops[0].startswith("bv"):
             top = 4 + sum(6 + 2 * j for j in range(len(ops)))      # growth copies every element again
             top = min(top, 120)
@@ -347,7 +417,7 @@ def container_part(ctx, r, model):
     # The request stream is split into chunks (each starts with the cfg line) that run on a few workers, each with a
     # timeout proportional to its size: a loaded machine slows every forked probe, and one long stream with one fixed
     # timeout made the whole correspondence time out.
-    cfg_line = "cfg %d %d %d %d" % (clear_guard, next_init, skip_pending, pop_null)
+    cfg_line = "cfg %d %d %d %d %d %d" % (clear_guard, next_init, skip_pending, pop_null, drop_empty, late_unerase)
     chunk_lines_max = 6000
     chunks, cur, cur_owner = [], [cfg_line], [-1]
     for si, (k, ops) in enumerate(seqs):
@@ -390,6 +460,8 @@ def container_part(ctx, r, model):
             continue
         k, ops = seqs[si]
         text = "failAt=%d ; %s" % (k, " ; ".join(ops))
+        if iv.startswith("ub") and mv is not None and mv.startswith("ub"):
+            mv = iv       # an undefined step: both sides stop here; what the real object looks like afterwards is not compared
         if iv != mv:
             agree = False
             disagreements.append({"seq": text, "line": o, "impl": iv, "model": mv})
@@ -404,7 +476,17 @@ def container_part(ctx, r, model):
             seen_bad.add(si)
             ctx.fail("ra.destroyObject-allocates: " + text, "ReusableArenaAllocator::destroyObject made an allocation request (refused: the "
                      "exception leaves destroyObject, which the library calls from destructors): " + iv, [("new %d" % k)] + ops)
-        elif word == "ub" and not (o.startswith("l pop") or o == "v pop" or o == "bv pop" or o.startswith("a destroy") or o.startswith("ra destroy")):
+        elif word == "ub" and o.startswith(("m ", "mb ")):
+            seen_bad.add(si)
+            ctx.fail("map.stale-bucket-finds-free-entry: " + text, "after a refused value copy / splice in insert() the half-made free entry is "
+                     "found through a stale bucket iterator: erase()/insert() of that key destroys a dead value again (double free) and "
+                     "corrupts size(): " + iv, [("new %d" % k)] + ops)
+        elif word == "ub" and o in ("dql pop", "dqb pop") and " idx=0 " not in iv:
+            seen_bad.add(si)
+            ctx.fail("deque.empty-block-after-refused-copy: " + text, "pop_back() on a deque whose index ends in an EMPTY block (left by a "
+                     "push_back whose element copy or free-vector growth was refused) is undefined: " + iv, [("new %d" % k)] + ops)
+        elif word == "ub" and not (o.startswith("l pop") or o == "v pop" or o == "bv pop" or o.startswith("a destroy") or o.startswith("ra destroy")
+                                   or o in ("dql pop", "dqb pop")):
             seen_bad.add(si)
             ctx.fail("list.ub-after-throwing-copy: " + text if o == "l destroy" else
                      "arena.ub-uncommitted-slot: " + text if o == "a free" else
@@ -417,7 +499,7 @@ def container_part(ctx, r, model):
             ctx.fail("container.badfree: " + text, "double or foreign free reported by the manager: " + iv, [("new %d" % k)] + ops)
         elif iv.endswith("destroyed"):
             fired = int(f["reqs"]) >= k > 0
-            leaked_by_ctp = any(x == "v ctp" for x in ops) or ops[0].startswith("ra ")   # push_front of a new block refused: block leaked
+            leaked_by_ctp = any(x == "v ctp" for x in ops) or ops[0].startswith(("ra ", "m ", "mb "))   # push_front of a new arena block / push_back of a new map entry refused: block leaked
             if f["live"] != "0" and not (fired and leaked_by_ctp):
                 seen_bad.add(si)
                 ctx.fail("container.unbalanced: " + text, "blocks outstanding after the destructor: " + iv, [("new %d" % k)] + ops)
@@ -425,7 +507,7 @@ def container_part(ctx, r, model):
         nontriv = k > 0 and len(ops) > 2
         ctx.case(nontrivial_key=("c", k, " ".join(ops)) if nontriv else None,
                  sample={"failAt": k, "ops": ops} if si in (len(CONTAINER_CORPUS), len(CONTAINER_CORPUS) + 7) else None,
-                 cls="container:" + ("bvec" if ops[0].startswith("bv") else "blocklist" if ops[0].startswith("ra") else "autoptr" if ops[0].startswith("ap") else {"l": "list", "a": "arena", "d": "deque"}.get(ops[0][0], "vec")))
+                 cls="container:" + ("bvec" if ops[0].startswith("bv") else "blocklist" if ops[0].startswith("ra") else "autoptr" if ops[0].startswith("ap") else "map" if ops[0].startswith(("m ", "mb ")) else "deque2" if ops[0].startswith("dq") else {"l": "list", "a": "arena", "d": "deque"}.get(ops[0][0], "vec")))
     ctx.extra["container_disagreements"] = disagreements[:5]
     ctx.oblige("correspondence: XalanList<Boxed>/XalanVector<long>/XalanConstruct (real templates, failing manager) = Lean model "
                "on every op log and every refusal index", "correspondence", agree, str(disagreements[:2]))
@@ -552,7 +634,7 @@ def api_part(ctx, r, model):
                         ctx.fail("api.fresh-transformer-fails[%s] %s" % ("|".join(f.get("failsite", "?").split("|")[:2]), where),
                                  "a new transformer does not reproduce the clean run after the failure: " + str(f), inp)
         # a sample of failing indices: full event trace replayed on the Lean ledger, compared with the harness counters
-        for _ in range(3 if not ctx.thorough else 12):
+        for _ in range(0 if name in BAD_FAMILY else (1 if not ctx.thorough else 6)):
             ph = r.choice([p for p in PHASES if int(c.get("n_" + p, "0")) > 0])
             k = r.range(1, int(c["n_" + ph]))
             tf = os.path.join(work, "trace_one.txt")
